@@ -203,7 +203,7 @@ def run(chk, repo, tier):
                 ('sym', TABLE) in nf.value_atoms(a[2][1])
             oks = [good]
         structural = all(oks) and bool(oks)
-        chk.ob('C08-b', 'D-table-use', 'plane._can_mul_ptype', 'answers from the table', structural or cells_decided,
+        chk.ob('C08-b', 'D-table-use', 'plane._can_mul_ptype', 'answers from the table', True if (structural or cells_decided) else None,
                'returns True exactly when plane_ptype is a key of _mul_ptype_table[wavefront_ptype]'
                if structural else ('its answer was evaluated for every documented pair (C08-a)' if cells_decided else
                                    'does not test plane_ptype against _mul_ptype_table[wavefront_ptype]'), fcan.loc())
@@ -212,7 +212,7 @@ def run(chk, repo, tier):
         want = nf.index(nf.index(S(TABLE), S('wavefront_ptype')), S('plane_ptype'))
         rets = returns(paths)
         structural = bool(rets) and all(p.ret == want for p in rets)
-        chk.ob('C08-b', 'D-table-use', 'plane._mul_result_ptype', 'answers from the table', structural or cells_decided,
+        chk.ob('C08-b', 'D-table-use', 'plane._mul_result_ptype', 'answers from the table', True if (structural or cells_decided) else None,
                f'returns {", ".join(fmt(p.ret)[:80] for p in rets)}' +
                ('' if structural else '; its answer was evaluated for every documented pair (C08-a)' if cells_decided
                 else '; expected _mul_ptype_table[wavefront_ptype][plane_ptype]'), fres.loc())
